@@ -141,7 +141,7 @@ func buildIRs(s *smx.SM, l *Log, from, to int, base int64, next *uint64) ([]node
 }
 
 // applyPart feeds requests [from,to) of the log grouped by part (whose calls must add up to to-from).
-func (x *runner) applyPart(s *smx.SM, l *Log, from, to int, part [][]Call, replay bool, base int64, next *uint64, out *runOut) {
+func (x *runner) applyPart(s *smx.SM, l *Log, from, to int, part [][]Call, replay bool, syncer bool, base int64, next *uint64, out *runOut) {
 	irs, ids, wrs := buildIRs(s, l, from, to, base, next)
 	stop := make(chan struct{})
 	type seg struct{ lo, hi int } // event range of a request
@@ -161,6 +161,9 @@ func (x *runner) applyPart(s *smx.SM, l *Log, from, to int, part [][]Call, repla
 				if c.Flag {
 					rl.ReqId = *next
 					*next++
+				}
+				if syncer {
+					rl.Type = node.FromClusterSyncer
 				}
 				reqOfCall = append(reqOfCall, [2]int{pos, pos + c.N})
 				s.SM.ApplyRaftRequest(replay, rec, rl, 1, ids[pos], stop)
@@ -204,7 +207,11 @@ func (x *runner) applyPart(s *smx.SM, l *Log, from, to int, part [][]Call, repla
 			}
 			for r := rc[0]; r < rc[1]; r++ {
 				cls, eh := "", "-"
-				if l.Reqs[from+r].Kind == 'R' {
+				if l.Reqs[from+r].Kind == 'R' && syncer && !replay && rc[1]-rc[0] == 1 && len(qpos) == 0 {
+					// live cluster-syncer entry on which the state machine made no batch decision at all:
+					// ignored by the conflict pre-check (calls of syncer variants hold one request)
+					cls = "c"
+				} else if l.Reqs[from+r].Kind == 'R' {
 					qi++
 					if qi < len(qpos) {
 						hi := len(evs)
@@ -288,20 +295,20 @@ func (x *runner) run(l *Log, v *Variant) (*runOut, error) {
 	if v.Cut < 0 || v.Cut > n {
 		if v.Expire >= 0 && v.Expire <= n && l.Policy == "local" {
 			p1, p2 := splitPart(v.Part, v.Expire)
-			x.applyPart(s, l, 0, v.Expire, p1, v.Replay, base, &next, out)
+			x.applyPart(s, l, 0, v.Expire, p1, v.Replay, v.Syncer, base, &next, out)
 			if err := localExpireSweep(s); err != nil {
 				out.note += "sweep:" + err.Error() + ";"
 			}
-			x.applyPart(s, l, v.Expire, n, p2, v.Replay, base, &next, out)
+			x.applyPart(s, l, v.Expire, n, p2, v.Replay, v.Syncer, base, &next, out)
 			out.part = append(append([][]Call{}, p1...), p2...)
 		} else {
 			out.part = v.Part
-			x.applyPart(s, l, 0, n, v.Part, v.Replay, base, &next, out)
+			x.applyPart(s, l, 0, n, v.Part, v.Replay, v.Syncer, base, &next, out)
 		}
 	} else {
 		// prefix live on store A, checkpoint, restore into a NEW store B, tail replayed there
 		p1, p2 := splitPart(v.Part, v.Cut)
-		x.applyPart(s, l, 0, v.Cut, p1, false, base, &next, out)
+		x.applyPart(s, l, 0, v.Cut, p1, false, v.Syncer, base, &next, out)
 		bi := s.Store.Backup(1, uint64(v.Cut)+1)
 		for try := 0; bi == nil && try < 200; try++ {
 			// Backup refuses while the store's backup goroutine is not yet waiting for a request
@@ -332,7 +339,7 @@ func (x *runner) run(l *Log, v *Variant) (*runOut, error) {
 		s.Close()
 		s = s2
 		next2 := next
-		x.applyPart(s, l, v.Cut, n, p2, true, base, &next2, out)
+		x.applyPart(s, l, v.Cut, n, p2, true, v.Syncer, base, &next2, out)
 		out.part = append(append([][]Call{}, p1...), p2...)
 	}
 	out.dump = dump(s, l.universe())
